@@ -3,8 +3,9 @@
 From TT Require Import Lib.Base Model.Tags Spec.C17 Corr.C17 Proof.C17.
 
 (* The model meets the whole statement: for every adapter stack and every history of calls
-   (the quantifier's restrictions - tests not nested; new/gone disjoint, one outcome per test, no
-   startTestRun inside a test - are hypotheses inside spec_okb, clause by clause). *)
+   (the quantifier's restrictions - first clause: tests not nested, new/gone disjoint in every tags()
+   call of the history and of the reporter's Taggers (wf_cur); second clause: moreover one outcome per
+   test, no startTestRun inside a test (wf_obs) - are hypotheses inside spec_okb, clause by clause). *)
 Theorem C17_holds : forall i : input, spec_okb i (model i) = true.
 Proof. exact model_meets_spec. Qed.
 Print Assumptions C17_holds.
@@ -18,7 +19,8 @@ Print Assumptions C17_statement.
    ThreadsafeForwardingResult, ExtendedToStreamDecorator, ExtendedToOriginalDecorator over an old result,
    doubles.ExtendedTestResult; delegating: TestResultDecorator, Tagger, ExtendedToOriginalDecorator)
    refines the two-level specification after every call of every history without nested tests -
-   including outcome + stopTest without startTest, and startTestRun anywhere. *)
+   including outcome + stopTest without startTest, and startTestRun anywhere.  (The model's tags() lets
+   removal win, so it needs no disjointness here; the STATEMENT only speaks about disjoint sets.) *)
 Theorem C17_current : forall a h, nn_from false h = true ->
   Forall2 seteq (reporter_scan a h) (spec_scan (chain a) h).
 Proof. exact current_refines. Qed.
@@ -30,6 +32,19 @@ Theorem C17_merge : forall B chs, Forall disjoint chs ->
   seteq (fold_left apply1 chs B) (apply1 B (fold_left merge_tags chs no_change)).
 Proof. exact merge_law. Qed.
 Print Assumptions C17_merge.
+
+(* one merged tags() call on the target does what the two calls (run-level buffer, then test-level
+   buffer) do - the observation never distinguishes the two - and for disjoint sets both ways of
+   writing _merge_tags ("add, then remove" / "removal last") give the same pair *)
+Theorem C17_merge_one_call : forall B g t, disjoint t ->
+  seteq (apply1 (apply1 B g) t) (apply1 B (merge_tags g t)).
+Proof. exact merge_step. Qed.
+Print Assumptions C17_merge_one_call.
+
+Theorem C17_merge_gone_forms : forall ex ch, disjoint ch ->
+  seteq (snd (merge_tags ex ch)) (sunion (sdiff (snd ex) (fst ch)) (snd ch)).
+Proof. exact merge_gone_forms. Qed.
+Print Assumptions C17_merge_gone_forms.
 
 Theorem C17_merge_keeps_disjoint : forall ex ch, disjoint ex -> disjoint ch -> disjoint (merge_tags ex ch).
 Proof. exact merge_disjoint. Qed.
